@@ -3,6 +3,8 @@ impl Block {
     #[verifier::external_body]
     pub fn read(&self, in_block_offset: u64) -> (r: IoResult<(Entry, usize)>)
         ensures r matches Ok(p) ==> p.1 == PREFIX_META_SIZE + p.0.data.len() && p.1 < 0x100_0000_0000
+            // context W: a sealed block is packed up to `used`, so an entry that starts before `used` ends at or before it
+            && (in_block_offset < self.used ==> in_block_offset + p.1 <= self.used)
     { unimplemented!() }
 }
 
